@@ -318,7 +318,11 @@ def generate(rng, ncells=None, features=None):
         # comment, a read card or a message start anywhere else — seeded change C01d)
         "title": rng.choice(["Generated problem", "test case 42 (verif)", "pin cell - variant", "a title with $ and & and c",
                              "c  bare sphere -- benchmark, rev. 3", "C TITLE THAT LOOKS LIKE A COMMENT", "  c indented comment-like title",
-                             "c", "1 0 -1 imp:n=1 $ a title that looks like a cell"]),
+                             "c", "1 0 -1 imp:n=1 $ a title that looks like a cell",
+                             # titles at and beyond the column limits (79, 80, 81, 127, 128, 129 characters)
+                             ("title of seventy-nine characters " + "x" * 79)[:79], ("title of eighty characters " + "y" * 80)[:80],
+                             ("title of eighty-one characters " + "z" * 81)[:81], ("t127 " + "a" * 127)[:127], ("t128 " + "b" * 128)[:128],
+                             ("t129 " + "c" * 129)[:129]]),
         "mode": mode, "cells": cells, "surfaces": surfaces, "materials": materials, "transforms": transforms,
         "placement": placement, "extra_data": extra, "progressions": "progressions" in F, "shared_numbers": SH,
     }
